@@ -24,6 +24,9 @@ def run(rep, kf, tier, seed):
                       "violates": "result is not None"}
     rep.add(ob)
     rep.bounded.append({"id": ob.id, "bound": f"4 schematic documents x {len(seeds)} hash seeds", "violations": 0 if why is None else 1})
+    import contracts.registration as creg
+    from pyvc import engine_b as _eb
+    _eb.discharge(rep, kf, creg.all_contracts(), "C12", tier, seed)
     run_bounded(rep, kf, "C12", ["schema_order", "name_collision"], tier)
     rep.trusted.extend(["set-typedness is inferred from annotations of the record classes and local data flow (syntactic)",
                         "jinja2 `sort`/`dictsort` and python sorted() are deterministic"])
